@@ -38,10 +38,12 @@ package length
 //@   requires df != nil
 //@   ensures g == nil || istype(g, orb.Point) || istype(g, orb.MultiPoint) ==> same(result, 0.0)
 //@   ensures istype(g, orb.LineString) ==> same(result, sumDist(as(g, orb.LineString), df, len(as(g, orb.LineString))))
+//@   ensures istype(g, orb.Ring) ==> same(result, sumDist(as(g, orb.Ring), df, len(as(g, orb.Ring))))
 //@   ensures istype(g, orb.MultiLineString) ==> same(result, sumLines(as(g, orb.MultiLineString), df, len(as(g, orb.MultiLineString))))
 //@   ensures istype(g, orb.Polygon) ==> same(result, sumRings(as(g, orb.Polygon), df, len(as(g, orb.Polygon))))
 //@   ensures istype(g, orb.MultiPolygon) ==> same(result, sumPolys(as(g, orb.MultiPolygon), df, len(as(g, orb.MultiPolygon))))
 //@   ensures istype(g, orb.Collection) ==> same(result, sumLens(as(g, orb.Collection), df, len(as(g, orb.Collection))))
+//@   ensures istype(g, orb.Bound) ==> same(result, 0.0 + df(mk(orb.Point, as(g, orb.Bound).Max[0], as(g, orb.Bound).Min[1]), as(g, orb.Bound).Min) + df(as(g, orb.Bound).Max, mk(orb.Point, as(g, orb.Bound).Max[0], as(g, orb.Bound).Min[1])) + df(mk(orb.Point, as(g, orb.Bound).Min[0], as(g, orb.Bound).Max[1]), as(g, orb.Bound).Max) + df(as(g, orb.Bound).Min, mk(orb.Point, as(g, orb.Bound).Min[0], as(g, orb.Bound).Max[1])))
 //@   loop 1: invariant istype(old(g), orb.MultiLineString) && -1 <= rangeindex && rangeindex < len(as(old(g), orb.MultiLineString)) && same(sum, sumLines(as(old(g), orb.MultiLineString), df, rangeindex + 1))
 //@   loop 2: invariant istype(old(g), orb.MultiPolygon) && -1 <= rangeindex && rangeindex < len(as(old(g), orb.MultiPolygon)) && same(sum, sumPolys(as(old(g), orb.MultiPolygon), df, rangeindex + 1))
 //@   loop 3: invariant istype(old(g), orb.Collection) && -1 <= rangeindex && rangeindex < len(as(old(g), orb.Collection)) && same(sum, sumLens(as(old(g), orb.Collection), df, rangeindex + 1))
